@@ -332,7 +332,26 @@ class TermRule(BaseRule):
         """append/extend on a local list (add/update on a local set) whose content is known: the variable is re-bound to the
         longer list/set term.  `xs.extend(E(x) for x in I)` adds the same elements as `for x in I: xs.append(E(x))`."""
         f = node.func
-        if not (isinstance(f, ast.Attribute) and isinstance(f.value, ast.Name) and recv is not None and recv.sym and recv.sym.startswith(("list(", "set(", "listcomp(", "setcomp("))):
+        own_attr = isinstance(f, ast.Attribute) and isinstance(f.value, ast.Attribute) and isinstance(f.value.value, ast.Name) and f.value.value.id == "self"
+        if not (isinstance(f, ast.Attribute) and (isinstance(f.value, ast.Name) or own_attr) and recv is not None and recv.sym and recv.sym.startswith(("list(", "set(", "listcomp(", "setcomp("))):
+            return None
+        if own_attr and f.attr in ("append", "extend", "add", "update") and len(pos) == 1:
+            # self.xs = []; ... self.xs.append(x): the field is re-bound to the longer list (a store the rows show)
+            op, elts = destruct(recv.sym)
+            if op in ("list", "set") and {"append": "list", "extend": "list", "add": "set", "update": "set"}[f.attr] == op:
+                x = term_of(pos[0])
+                if f.attr in ("extend", "update"):
+                    gop, gargs = destruct(x)
+                    x = T("rep", gargs[0], gargs[1]) if gop in ("gen", "listcomp", "setcomp") and len(gargs) == 2 else T("star", x)
+                loops = st.ts.get("loops", ())
+                if loops:
+                    x = T("rep", x, *loops)
+                s = st.copy()
+                tgt = ast.copy_location(ast.Attribute(value=f.value.value, attr=f.value.attr, ctx=ast.Store()), f.value)
+                it.assign(s, tgt, tv(T(op, *elts, x), none=False, truth=True))
+                return [Out("normal", s, const(None))]
+            return None
+        if own_attr:
             return None
         op, elts = destruct(recv.sym)
         if op in ("listcomp", "setcomp"):
